@@ -5632,7 +5632,11 @@ class CodegenCtx:
             output_length_expr = self._generate_buflike_length_expr(action.into_storage)
             # Check if we need to allocate
             if ProgramData.do(ProgramFlag.ALLOCATE_STR_SPACE_DYNAMIC_ON_DEMAND) and self._is_dynamic(action.into_storage):  # (a default value is allocated in start(), but delete may have freed it since)
-                result.add(f"if (!state->c.{action.into_storage.name}) state->c.{action.into_storage.name} = malloc({output_length_expr});")
+                if action.into_storage.str_null:
+                    # (start out as a valid empty string: the appended expression may index the string itself)
+                    result.add(f"if (!state->c.{action.into_storage.name}) {{ state->c.{action.into_storage.name} = malloc({output_length_expr}); state->c.{action.into_storage.name}[0] = 0; }}")
+                else:
+                    result.add(f"if (!state->c.{action.into_storage.name}) state->c.{action.into_storage.name} = malloc({output_length_expr});")
             # We treat the size given in by the user as including a terminating null (if requested, anyways)
             max_length_expr = self._generate_buflike_length_expr(action.into_storage, include_null=True)
             result.add(f"if (state->{action.into_storage.name}_counter == {max_length_expr}) {{")
